@@ -1124,6 +1124,76 @@ int main(int argc, char** argv) {
                         }
             }
 
+    // ---- static law with many differently configured processors alive at once: levels looped outside, processors inside,
+    //      one sample per call.  Each processor must follow ITS OWN documented law and be bit-identical to a processor of
+    //      the same configuration driven alone with the same samples (the gain computer owns no state shared between objects).
+    {
+        struct Cfg { int kind; double T; int R; double W; };
+        std::vector<Cfg> cfgs;
+        for (int kind = 0; kind < 2; ++kind)
+            for (double T : TsD)
+                for (int R : RsD) {
+                    if (kind == 1 && R != 1) continue;
+                    for (double W : WsD) cfgs.push_back({kind, T, R, W});
+                }
+        for (int order = 0; order < 2; ++order) {   // 0: ascending levels, 1: descending
+            if (!ctx.take("static.together", P().kv("processors", (long long)cfgs.size()).kv("order", order ? "descending" : "ascending"))) continue;
+            std::vector<double> xs;
+            for (long long c = -100000; c <= 20000; c += 500) {
+                double a = (double)powl(10.0L, (ld)c / 20000.0L);
+                xs.push_back(((c / 500) & 1) ? -a : a);
+            }
+            if (order) std::reverse(xs.begin(), xs.end());
+            std::vector<std::unique_ptr<Compressor>> cs(cfgs.size()), cs1(cfgs.size());
+            std::vector<std::unique_ptr<Limiter>> ls(cfgs.size()), ls1(cfgs.size());
+            for (size_t k = 0; k < cfgs.size(); ++k) {
+                const Cfg& c = cfgs[k];
+                if (c.kind == 0) cs[k] = std::make_unique<Compressor>(8000, c.T, c.R, c.W, 0, 0), cs1[k] = std::make_unique<Compressor>(8000, c.T, c.R, c.W, 0, 0);
+                else ls[k] = std::make_unique<Limiter>(8000, c.T, c.W, 0, 0), ls1[k] = std::make_unique<Limiter>(8000, c.T, c.W, 0, 0);
+            }
+            // together: level outside, processor inside
+            std::vector<std::vector<double>> tog(cfgs.size()), solo(cfgs.size());
+            for (double x : xs)
+                for (size_t k = 0; k < cfgs.size(); ++k) {
+                    arr_real fr(1);
+                    fr[0] = x;
+                    tog[k].push_back(cfgs[k].kind == 0 ? cs[k]->process(fr).out[0] : ls[k]->process(fr).out[0]);
+                }
+            // solo: processor outside, level inside (fresh objects)
+            for (size_t k = 0; k < cfgs.size(); ++k)
+                for (double x : xs) {
+                    arr_real fr(1);
+                    fr[0] = x;
+                    solo[k].push_back(cfgs[k].kind == 0 ? cs1[k]->process(fr).out[0] : ls1[k]->process(fr).out[0]);
+                }
+            int reported = 0;
+            bool attenuated = false;
+            for (size_t k = 0; k < cfgs.size() && reported < 3; ++k) {
+                const Cfg& c = cfgs[k];
+                const char* site = c.kind ? "Limiter.process" : "Compressor.process";
+                for (size_t i = 0; i < xs.size(); ++i) {
+                    ++ctx.evaluations;
+                    ++ctx.checks["static.together"].evals;
+                    const ld Lin = level_db(xs[i]);
+                    const ld ref = static_out(c.kind == 1, c.T, c.R, c.W, Lin);
+                    const ld Lo = tog[k][i] == 0.0 ? -1e9L : level_db(tog[k][i]);
+                    if (ref < Lin - 1e-9L) attenuated = true;
+                    if (tog[k][i] != solo[k][i] || !(fabsl(Lo - ref) <= 1e-6L)) {
+                        ++reported;
+                        ctx.fail(site,
+                                 fmt("T=%g R=%d W=%g among %zu live processors, %.4Lf dB in: %.6Lf dB out (alone: %.6Lf dB)", c.T, c.R, c.W, cfgs.size(), Lin, Lo,
+                                     solo[k][i] == 0.0 ? -1e9L : level_db(solo[k][i])),
+                                 fmt("%.6Lf dB (documented law), bit-identical to the processor driven alone", ref),
+                                 P().kv("sub", "together").kv("T", c.T).kv("R", c.R).kv("W", c.W).kv("L", (double)Lin));
+                        break;
+                    }
+                }
+            }
+            if (attenuated) ctx.nontrivial();
+            ctx.note("static.together processors alive at once", (long long)cfgs.size());
+        }
+    }
+
     // ---- exact breakpoints: samples whose computed level equals T, T-W/2, T+W/2 bit-exactly (zero attack; release 0 and 0.2 s)
     for (int kind = 0; kind < 3; ++kind)   // 0 compressor R=1, 1 compressor R=5, 2 limiter
         for (double T : TsD)
